@@ -242,3 +242,17 @@ Theorem C04_udp_gap_example :
   u_q (u_run [UArrive 0 [1]; UArrive 2 [3]; UArrive 3 [4]; UArrive 1 [2]; UClose]) = [[1]; [2]; [3]; [4]].
 Proof. exact ex_gap. Qed.
 Print Assumptions C04_udp_gap_example.
+
+(* "a datagram that the session refuses leaves the session as if the datagram had been lost" is FALSE of the code: the
+   receiver's own data datagram (it opens: shared key, explicit nonce; it carries the session id) is refused by
+   Session.input, and that refusal ends the session - the genuine datagrams that follow are no longer handed on.
+   Witness: server datagram, reflected client datagram, server datagram: only the first reaches the application. *)
+Theorem C04_udp_reflection_closes_session_refuted :
+  exists (op : list N -> list N -> option (list N)) (pm : list N -> option minfo)
+         (ld : leparams -> N -> list N -> option (list N)) (client : bool) (sid : N)
+         (ds1 : list (list N)) (d : list N) (ds2 : list (list N)) (r : rseg),
+    udp_parse op pm ld d = Some r /\ own_side client (mi_proto (fst r)) = true /\ mi_sid (fst r) = sid /\
+    session_in client sid (udp_recv_all op pm ld (ds1 ++ d :: ds2)) <>
+    session_in client sid (udp_recv_all op pm ld (ds1 ++ ds2)).
+Proof. exact udp_reflection_closes_session_refuted. Qed.
+Print Assumptions C04_udp_reflection_closes_session_refuted.
